@@ -96,7 +96,8 @@ CLAIMED["C16"] = c(
     "transpose of out (C16_schedule_independent_rules); the page query is sandwiched (C16_sandwich_partial: every item appended is, at that "
     "moment, a page under one of its prefixes; C16_sandwich_complete: a page present at its first step and qualifying at the end is in the "
     "answer); the page-link query keeps its invariant under every schedule, appends only stored links whose other end resolves as the clause "
-    "says at that moment, and reports every internal link that qualified throughout (C16_plinks_sandwich_partial, C16_plinks_complete_internal); "
+    "says at that moment, and reports every link that qualified under one clause throughout (C16_plinks_sandwich_partial, "
+    "C16_plinks_complete_internal / _outbound / _inbound); "
     "the network query reports every edge sustained by one page link throughout (C16_network_lower). "
     "For the network query and the outbound/inbound clauses of the page-link query the clause 'no item that qualified at no moment' "
     "is REFUTED (C16_network_upper_clause_refuted, C16_pagelinks_outbound_clause_refuted: witnesses replayed on /repo, findings F10, F11). "
@@ -106,6 +107,5 @@ CLAIMED["C16"] = c(
     "Coq proof: schedule independence by a per-step invariant with ghost link lists, query sandwich, refutation witnesses by vm_compute; "
     "schedule exploration of the real generators",
     "DESIGN.md section 6 C16",
-    "Known findings F10, F11 (known_findings.json). Partial: cooperative single-threaded scheduling only (as the property states); the lower "
-    "clause of the outbound/inbound page-link clauses is checked on the implementation, not proved.")
+    "Known findings F10, F11 (known_findings.json). Cooperative single-threaded scheduling only (as the property states).")
 PENDING = {}
